@@ -43,15 +43,21 @@ def _ufo(case):
         if d.get("uni") is not None:
             g.unicodes = [d["uni"]]
         for an, x, y in d.get("anchors", []):
-            g.appendAnchor({"name": an, "x": x, "y": y})
-        pen = g.getPen()
-        pen.moveTo((0, 0)); pen.lineTo((10, 0)); pen.lineTo((10, 10)); pen.closePath()
+            g.appendAnchor({"name": an, "x": x, "y": y} if an is not None else {"x": x, "y": y})  # None: an unnamed anchor
+        if not d.get("nocontour"):
+            pen = g.getPen()
+            pen.moveTo((0, 0)); pen.lineTo((10, 0)); pen.lineTo((10, 10)); pen.closePath()
+        for base in d.get("components", []):  # (a glyph made of components only has no contour of its own: `bool(glyph)` is False)
+            g.getPointPen().addComponent(base, (1, 0, 0, 1, 0, 0))
     if case.get("cats") is not None:
         ufo.lib["public.openTypeCategories"] = dict(case["cats"])
     if case.get("skip"):
         ufo.lib["public.skipExportGlyphs"] = list(case["skip"])
     ufo.lib["public.glyphOrder"] = [".notdef"] + list(case.get("order") or case["glyphs"])
     ufo.features.text = case.get("fea", "")
+    if case.get("offset"):
+        # a glyph-set filter that MOVES every anchor (and outline) before the features are written
+        ufo.lib["com.github.googlei18n.ufo2ft.filters"] = [{"name": "transformations", "kwargs": {"OffsetX": case["offset"]}, "pre": True}]
     return ufo
 
 
@@ -77,7 +83,9 @@ def _gdef_writer(case):
     return w, ufo, fea
 
 
-def expected_carets(case):
+def expected_carets(case, offset=0):
+    """per exported glyph the increasing distinct rounded caret_ x / vcaret_ y coordinates of ITS OWN anchors (moved by `offset` when a
+    glyph-set filter moved them)"""
     out = {}
     for name in _exported(case):
         d = case["glyphs"].get(name)
@@ -85,8 +93,10 @@ def expected_carets(case):
             continue
         cs = set()
         for an, x, y in d.get("anchors", []):
+            if not an:
+                continue
             if an.startswith("caret_"):
-                cs.add(x)
+                cs.add(x + offset)
             elif an.startswith("vcaret_"):
                 cs.add(y)
         if cs:
@@ -162,6 +172,10 @@ def gdef_function_domain(tier):
             # anchor names are unique within a glyph (with duplicates `_getAnchor` reads the first one of that name: see notes/C18.md)
             for an in rng.sample(["caret_1", "caret_2", "caret_", "vcaret_1", "top", "caretx", "Caret_1"], rng.randint(0, 3)):
                 anchors.append([an, rng.choice([100, 100.4, 100.5, 250, 99.6, 0, -20.5]), rng.choice([0, 300, 300.5, 10])])
+            if anchors and rng.random() < 0.15:
+                anchors.append([anchors[0][0], 77.5, 33])  # a second anchor of the same name: every caret anchor contributes its OWN coordinate
+            if rng.random() < 0.15:
+                anchors.append([None, 5, 5])  # an unnamed anchor
             glyphs[nm] = {"uni": None, "anchors": anchors}
         cats = {nm: rng.choice(["base", "mark", "ligature", "component", "unassigned", "bogus"]) for nm in rng.sample(names + ["ghost"], rng.randint(0, 6))}
         cases.append({"glyphs": glyphs, "cats": cats or None, "skip": rng.choice([[], ["skipped"], ["skipped", "b"]]), "fea": rng.choice(feas), "mode": rng.choice(["skip", "skip", "append"])})
@@ -189,7 +203,8 @@ def expected_pairs(case):
     names = set()
     for n in _exported(case):
         for an, _, _ in case["glyphs"].get(n, {}).get("anchors", []):
-            names.add(an)
+            if an:
+                names.add(an)
     pairs = set()
     if "entry" in names and "exit" in names:
         pairs.add(("entry", "exit"))
@@ -199,10 +214,10 @@ def expected_pairs(case):
     return sorted(pairs)
 
 
-def _first_anchor(case, glyph, name):
+def _first_anchor(case, glyph, name, offset=0):
     for an, x, y in case["glyphs"].get(glyph, {}).get("anchors", []):
         if an == name:
-            return (ot_round(x), ot_round(y))
+            return (ot_round(x + offset), ot_round(y))
     return None
 
 
@@ -238,7 +253,9 @@ def curs_function_domain(tier):
         glyphs = {}
         for nm in names:
             anchors = [[an, rng.choice([0, 10.5, 100, 99.5, -3.5]), rng.choice([0, 200, 200.5])] for an in rng.sample(anchor_names, rng.randint(0, 3))]
-            glyphs[nm] = {"uni": {"a": 0x61, "b": 0x62, "beh-ar": 0x628}.get(nm), "anchors": anchors}
+            if rng.random() < 0.2:
+                anchors.insert(rng.randint(0, len(anchors)), [None, 1, 1])  # an unnamed anchor (F-C18-a: crashed the writer before b1c4f33)
+            glyphs[nm] = {"uni": {"a": 0x61, "b": 0x62, "beh-ar": 0x628}.get(nm), "anchors": anchors, "nocontour": rng.random() < 0.3}
         cases.append({"glyphs": glyphs, "skip": rng.choice([[], ["skipped"], ["skipped", "c"]])})
     return cases
 
@@ -309,7 +326,7 @@ def check_observer(case):
     # (G2) ligature carets == increasing distinct rounded caret coordinates of the exported glyphs (unless the user wrote carets)
     if not case.get("user_carets"):
         # coordinates that collide after rounding are stored once in the compiled LigGlyph (the writer lists both, feaLib/otlLib merges them)
-        wantc = {g: sorted(set(cs)) for g, cs in expected_carets(case).items()}
+        wantc = {g: sorted(set(cs)) for g, cs in expected_carets(case, case.get("offset", 0)).items()}
         gotc = {}
         if gdef is not None and gdef.LigCaretList is not None:
             for g, lg in zip(gdef.LigCaretList.Coverage.glyphs, gdef.LigCaretList.LigGlyph):
@@ -324,7 +341,7 @@ def check_observer(case):
     wantr = {}
     for entry, exit_ in expected_pairs(case):
         for g in [n for n in _exported(case)]:
-            e, x = _first_anchor(case, g, entry), _first_anchor(case, g, exit_)
+            e, x = _first_anchor(case, g, entry, case.get("offset", 0)), _first_anchor(case, g, exit_, case.get("offset", 0))
             if e is None and x is None:
                 continue
             if entry.endswith(".LTR"):
@@ -381,6 +398,17 @@ def observer_domain(tier):
                       "fea": gsub + "table GDEF {\n    GlyphClassDef [a], , [acutecomb], ;\n} GDEF;\n", "user_gcd": {"a": 1, "acutecomb": 3}})
         cases.append({"glyphs": base_glyphs, "cats": cats, "skip": ["skipped"], "mode": mode, "ltr": ["a", "b", "a.swsh"],
                       "fea": gsub + "table GDEF {\n    LigatureCaretByPos f_i 77;\n} GDEF;\n", "user_carets": True})
+    # F-C18-b: a glyph-set filter moves anchors and outlines: carets and cursive anchors must move with them — also for a glyph WITHOUT contours
+    # of its own (components only: `bool(glyph)` is False); F-C18-a: unnamed anchors are ignored and do not crash the cursive writer
+    moved = {
+        "a": {"uni": 0x61, "anchors": A(("exit", 100, 200), (None, 5, 5))},
+        "b": {"uni": 0x62, "anchors": A(("entry", 0, 200), ("exit", 111.5, 200.4), ("entry", 999, 999))},
+        "beh-ar": {"uni": 0x628, "nocontour": True, "components": ["a"], "anchors": A(("entry", 300, 0), ("exit", 0, 0))},
+        "f_i": {"uni": None, "anchors": A(("caret_1", 250.5, 0), ("caret_1", 60, 0), ("vcaret_1", 0, 333), (None, 1, 1))},
+        "l_i": {"uni": None, "nocontour": True, "components": ["a", "b"], "anchors": A(("caret_1", 40, 0))},
+    }
+    for off in (100, -30.5, 0):
+        cases.append({"glyphs": moved, "cats": {"f_i": "ligature", "l_i": "ligature", "a": "base"}, "skip": [], "fea": "", "ltr": ["a", "b"], "offset": off})
     # invalid values only / empty map / categories naming only skipped glyphs
     cases.append({"glyphs": ltr_only, "cats": {"a": "Base", "b": ""}, "skip": [], "fea": "", "ltr": ["a", "b"]})
     cases.append({"glyphs": base_glyphs, "cats": {"skipped": "base", "a": "unassigned"}, "skip": ["skipped"], "fea": "", "ltr": ["a", "b"]})
